@@ -5,7 +5,7 @@
 patch="$(readlink -f "$1")"; demo="$(readlink -f "$2")"; prop="$3"; tier="${4:-quick}"
 # VERIF_DIR / TEST_SCRATCH let a sub-agent run this from its own verif worktree with a private scratch worktree
 cd "${VERIF_DIR:-/verif}" || exit 2
-SCR="${TEST_SCRATCH:-/tmp/harmlesstest}"
+SCR="${TEST_SCRATCH:-/tmp/harmlesstest.$$}"
 R=$SCR/repo
 git -C /repo worktree remove --force $R >/dev/null 2>&1; rm -rf $R; mkdir -p $SCR
 git -C /repo worktree add -q --detach $R HEAD || exit 2
